@@ -338,7 +338,8 @@ fn mutate_ops(rng: &mut Rng, g: &GenCfg, cfg: &mut ControlFlowGraph, addrs: &[u6
                     Some(Operation::store(addr_expr(rng, g), src.clone()))
                 }
                 Operation::Branch { .. } if !addrs.is_empty() && rng.chance(4, 5) => {
-                    let a = *rng.pick(addrs);
+                    // a present address, the first function's own address, or one next to a present one
+                    let a = if rng.chance(1, 5) { addrs[0] } else { *rng.pick(addrs) };
                     let t = if rng.chance(1, 10) { a + 1 } else { a };
                     Some(Operation::branch(il::expr_const(t, g.addr_bits)))
                 }
@@ -386,7 +387,9 @@ fn gen_program7(rng: &mut Rng, g: &GenCfg, wf: bool) -> Program {
         let mut cfg = f.control_flow_graph().clone();
         let mut addr = f.address();
         if rng.chance(9, 10) {
-            let base = 0x1000 * (i + 1) * 4 + 0x10000;
+            // mostly disjoint ranges well above 0; sometimes the first function starts at address 0 (hand-built IL,
+            // firmware images), where "no address" and "address 0" must stay different things
+            let base = if i == 0 && rng.chance(1, 4) { 0 } else { 0x1000 * (i + 1) * 4 + 0x10000 };
             for b in cfg.blocks_mut() {
                 for ins in b.instructions_mut() {
                     let a = ins.address().map(|a| a - 0x1000 + base);
@@ -397,7 +400,22 @@ fn gen_program7(rng: &mut Rng, g: &GenCfg, wf: bool) -> Program {
         }
         fs.push((addr, cfg));
     }
+    // instructions built by hand (or inserted by an editing pass) carry no address: strip some
+    if rng.chance(1, 2) {
+        for (_, cfg) in fs.iter_mut() {
+            for b in cfg.blocks_mut() {
+                for ins in b.instructions_mut() {
+                    if rng.chance(1, 3) {
+                        ins.set_address(None);
+                    }
+                }
+            }
+        }
+    }
     let mut addrs: Vec<u64> = Vec::new();
+    for (a, _) in &fs {
+        addrs.push(*a); // addrs[0] = the first function's address
+    }
     for (_, cfg) in &fs {
         for b in cfg.blocks() {
             for ins in b.instructions() {
